@@ -1,5 +1,5 @@
 PROPS["C16"] = {
-    "streams": ["sess-deliver", "sess-base", "life-reb"], "audit": "C16.lean", "shrink": True, "compare_parts": ["scrape", "mut=", "open="], "clauses": ["C16"], "retry_divergence": 2, "timeout": 900,
+    "streams": ["sess-deliver", "sess-base", "life-reb", "c16race"], "audit": "C16.lean", "shrink": True, "compare_parts": ["scrape", "mut=", "open="], "clauses": ["C16"], "retry_divergence": 2, "timeout": 900,
     "rule": "session histories (deliveries, acks, saves, crashes, reopen) with `scrape` ops at arbitrary points: the REAL metric.NewMetricCollector over the real stream, "
             "gathered from a private prometheus registry; high-seqno vectors moved between scrapes incl. below the tracked position; scrapes while closed; "
             "active-stream and rebalance counters through stream.GetMetric in the life-cycle stream (lf-query). "
